@@ -20,11 +20,38 @@ SEMANTIC = (
 RESOURCE = ("resource limit", "rlimit", "timed out", "timeout", "out of memory")
 
 
-def run_verus(root, probe=False, rlimit=None, seed=None, repo=None, extra=()):
-    """-> dict(status, ...) ; status in ok | failed | undecided"""
+def run_verus(root, probe=False, rlimit=None, seed=None, repo=None, extra=(), force_registered=None, _depth=0):
+    """-> dict(status, ...) ; status in ok | failed | undecided.
+    If the verifier's FRONT END rejects the text of a changed item (e.g. it now calls a helper function that is not under
+    contract, or uses a construct outside the supported subset), that item is replaced by its registered copy (flagged
+    `conflict`, decided by its mirror only) and the root is verified again, so that everything else is still decided."""
+    res = _run_verus(root, probe, rlimit, seed, repo, extra, force_registered)
+    if res.get("status") == "undecided" and _depth < 3 and "report" in res:
+        forced = dict(force_registered or {})
+        new = {}
+        for e in res.get("frontend_in_items", []):
+            it = next((i for i in res["report"]["items"] if i["item"] == e["item"]), None)
+            if it is not None and it["status"] == "merged" and e["item"] not in forced:
+                new[e["item"]] = "the verifier's front end rejects the changed item (%s)" % e["message"][:160]
+        if new:
+            forced.update(new)
+            return run_verus(root, probe, rlimit, seed, repo, extra, forced, _depth + 1)
+    return res
+
+
+def _map_item(report, line):
+    if line is None:
+        return None
+    for i in report["items"]:
+        if i["gen_lines"][0] <= line <= i["gen_lines"][1]:
+            return i
+    return None
+
+
+def _run_verus(root, probe=False, rlimit=None, seed=None, repo=None, extra=(), force_registered=None):
     t0 = time.time()
     try:
-        gen, report = extract.generate(root, WORK, probe=probe, repo=repo)
+        gen, report = extract.generate(root, WORK, probe=probe, repo=repo, force_registered=force_registered)
     except extract.ExtractError as ex:
         return {"root": root, "probe": probe, "status": "undecided", "reason": "extraction: %s" % ex, "wall_s": time.time() - t0}
     cmd = ["verus", os.path.basename(gen), "--output-json", "--time", "--error-format=json",
@@ -49,6 +76,14 @@ def run_verus(root, probe=False, rlimit=None, seed=None, repo=None, extra=()):
                 continue
             if d.get("level") in ("error", "error: internal compiler error"):
                 diags.append(d)
+    fe = []
+    for d0 in diags:
+        ln0 = next((sp.get("line_start") for sp in d0.get("spans", []) if sp.get("is_primary")), None)
+        it0 = _map_item(report, ln0)
+        low0 = d0.get("message", "").lower()
+        if it0 is not None and not any(s_ in low0 for s_ in SEMANTIC) and not any(s_ in low0 for s_ in RESOURCE):
+            fe.append({"item": it0["item"], "message": d0.get("message", "")})
+    res["frontend_in_items"] = fe
     try:
         out = json.loads(p.stdout)
     except ValueError:
